@@ -182,7 +182,8 @@ gen_epoch_case(const std::string &p, int cap)
       ops.push_back(mk(GUARD_NEW, static_cast<uint32_t>(p == "C17" ? weighted({1, 4}) : weighted({3, 2}))));
       const int inner = pick(0, 4);
       for (int k = 0; k < inner; k++) {
-        switch (weighted({3, 2, 2, 2, 2, 2})) {
+        switch (weighted({3, 2, 2, 2, 2, 2, 2})) {
+          case 6: ops.push_back(mk(GUARD_REFRESH, static_cast<uint32_t>(pick(0, 1)))); break;
           case 0: ops.push_back(mk(YIELD)); break;
           case 1: ops.push_back(mk(READ_CUR)); break;
           case 2: ops.push_back(mk(READ_MIN)); break;
